@@ -266,7 +266,19 @@ func runProbe(w *drv.World, s drv.Step) (pr probeResult) {
 			ps = append(ps, ref.Pair{K: append([]byte{}, k...), V: append([]byte{}, v...)})
 			return false
 		})
-		return probeResult{res: fmt.Sprintf("%d/%x/%s", lv, h.Hash(), fmtp(ps)), err: err}
+		// what the freshly loaded handle believes afterwards is part of the
+		// answer: a failure absorbed during the load must not surface later as
+		// missing versions or absent keys
+		var sb strings.Builder
+		fmt.Fprintf(&sb, "%d/%x/%s/avail=%v", lv, h.Hash(), fmtp(ps), h.AvailableVersions())
+		for _, v := range vers {
+			val, gerr := h.GetVersioned(s.K, v)
+			if gerr != nil {
+				return probeResult{err: gerr} // this part of the composite read reported the failure
+			}
+			fmt.Fprintf(&sb, "/v%d:%v:%x", v, h.VersionExists(v), val)
+		}
+		return probeResult{res: sb.String(), err: err}
 	case "p.set":
 		u, err := t.Set(s.K, s.V)
 		return probeResult{res: fmt.Sprint(u), err: err, wrote: true}
@@ -659,6 +671,13 @@ func oneFault(p *drv.Plan, w *drv.World, base *sim.SimDB, baseDigest uint64, for
 		}
 		if w2.Sim.Digest() != baseDigest && s.Op != "p.load" && s.Op != "p.loadversion" {
 			return mk("C17.read-error-or-same", "store-changed", site, "a read changed the durable contents")
+		}
+		if r1.err == nil {
+			// the read claimed success: the handle must still answer correctly
+			// (a failure must not be absorbed into wrong cached state)
+			if v := w2.Guard("C17", "C17.read-error-or-same", api, func() *drv.Violation { return w2.AuditVersions("after-faulted-read", false) }); v != nil {
+				return mk("C17.read-error-or-same", "wrong-state-after-success", site, "the call succeeded, but afterwards the same handle answers wrongly without any further fault: "+firstLine(v.Detail))
+			}
 		}
 		return nil
 	}
